@@ -85,6 +85,10 @@ type thread struct {
 	lastCell uintptr
 	lastKind int
 	started  bool
+
+	spinObj   *SyncObj
+	spinVer   int
+	spinCount int
 }
 
 type access struct {
@@ -347,7 +351,8 @@ func Go(f func()) {
 // SyncObj carries the vector clock of a synchronisation object.
 type SyncObj struct {
 	vc  vclock
-	rel hv // commutative sum of the history hashes of the releases so far
+	rel hv  // commutative sum of the history hashes of the releases so far
+	ver int // number of atomic stores published here (spin-wait detection)
 }
 
 // Release publishes the current thread's history into o (unlock, Done, end of Once function).
@@ -374,6 +379,29 @@ func Publish(o *SyncObj) {
 	t.vc.inc(t.id)
 	t.h = t.h.fold('U')
 	o.rel = t.h
+	o.ver++
+}
+
+// SpinCheck is called after an atomic load of o. A goroutine that loads the
+// same atomic variable three times in a row without anybody having stored to
+// it in between is spin-waiting: it is parked until the next store to that
+// variable (waiting is made visible to the scheduler instead of unrolling the
+// loop; if no store can ever come the execution is reported as a deadlock).
+func SpinCheck(o *SyncObj) {
+	if s == nil {
+		return
+	}
+	t := s.cur
+	if t.spinObj == o && t.spinVer == o.ver {
+		t.spinCount++
+	} else {
+		t.spinObj, t.spinVer, t.spinCount = o, o.ver, 1
+	}
+	if t.spinCount >= 3 {
+		ver := o.ver
+		blockUntil("atomic spin-wait", func() bool { return o.ver != ver })
+		t.spinCount = 0
+	}
 }
 
 // ObjAt returns the synchronisation object standing for the atomic variable at
